@@ -52,7 +52,9 @@ def reference(nkeys, log, pub_bytes, cb, at_none=False):
 
 def one_connect(s, nkeys, cb, pub_bytes, strays, maxdata, viol, tag, kform=None, at=AT):
     env = s.env
-    keys = [StubSigner(i, pub_bytes) for i in range(nkeys)]
+    keys = getattr(s, 'c05_keys', None)        # the same signer objects serve every connect() of one execution
+    if keys is None or len(keys) != nkeys:
+        keys = s.c05_keys = [StubSigner(i, pub_bytes) for i in range(nkeys)]
     calls = []
 
     def callback(dev):
@@ -100,9 +102,11 @@ def one_connect(s, nkeys, cb, pub_bytes, strays, maxdata, viol, tag, kform=None,
                     viol.append({'msg': '%s: AUTH #%d is %r, expected the signature of key %d over the most recent token %r' % (tag, j, (p.a0, p.a1, p.data[:40]), i, tok)})
             else:
                 pk0 = StubSigner(0, pub_bytes).GetPublicKey()
-                want = (pk0 if isinstance(pk0, bytes) else pk0.encode('utf-8')) + b'\0'
+                want = (bytes(pk0) if isinstance(pk0, (bytes, bytearray)) else pk0.encode('utf-8')) + b'\0'
                 if p.a0 != 3 or p.a1 != 0 or p.data != want:
                     viol.append({'msg': '%s: AUTH #%d is %r, expected the NUL-terminated public key of key 0' % (tag, j, (p.a0, p.a1, p.data[:40]))})
+    if keys and pub_bytes == 'bytearray' and bytes(keys[0].GetPublicKey()) != b'PUBKEY-0 user@host':
+        viol.append({'msg': '%s: connect() modified the signer\'s own public key object: it now reads %r' % (tag, bytes(keys[0].GetPublicKey()))})
     # 3. callback
     if len(calls) != ncb:
         viol.append({'msg': '%s: auth callback invoked %d times, expected %d (decisions %r)' % (tag, len(calls), ncb, log)})
@@ -172,7 +176,7 @@ def parts(tier):
     twins = ('sync', 'async')
     kmax = 4 if tier == 'quick' else 12
     sc = [{'nkeys': n, 'cb': cb, 'maxdata': md, 'twin': t, 'pub_bytes': pb, 'strays': False, 'push': True}
-          for n in range(0, kmax + 1) for cb in (None, 'record', 'raise') for md in (4096, 256 * 1024, 1024 * 1024) for t in twins for pb in (False, True, 'nonascii')
+          for n in range(0, kmax + 1) for cb in (None, 'record', 'raise') for md in (4096, 256 * 1024, 1024 * 1024) for t in twins for pb in (False, True, 'nonascii', 'bytearray')
           if (md == 1024 * 1024 or n <= 2) and (not pb or n in (1, 2))]
     sc += [dict(x, at_none=True) for x in sc if x['maxdata'] == 1024 * 1024 and not x['pub_bytes'] and 1 <= x['nkeys'] <= 2 and x['cb'] != 'raise']     # auth_timeout_s=None
     sc += [dict(x, maxdata=4 * 1024 * 1024) for x in sc if x['maxdata'] == 1024 * 1024 and not x['pub_bytes'] and x['nkeys'] <= 1 and not x.get('at_none')]   # a device announcing more than the host's own 1 MiB
@@ -183,7 +187,7 @@ def parts(tier):
     sc = [{'nkeys': n, 'cb': 'record', 'maxdata': 1024 * 1024, 'twin': t, 'pub_bytes': False, 'strays': True, 'push': False} for n in ((0, 1, 2) if tier == 'quick' else (0, 1, 2, 3)) for t in twins]
     out.append(Part('strays', sc, run_one, {'*': None, 'stray': 2 if tier == 'quick' else 5}, what='stray packets of a dead stream before any awaited reply',
                     bound='<=%d stray packets in total' % (2 if tier == 'quick' else 5)))
-    sc = [{'nkeys': n, 'cb': cb, 'maxdata': 4096, 'twin': t, 'pub_bytes': False, 'strays': False, 'second': True, 'push': True}
-          for n in ((0, 1, 2) if tier == 'quick' else (0, 1, 2, 3, 4)) for cb in (None, 'record') for t in twins]
+    sc = [{'nkeys': n, 'cb': cb, 'maxdata': 4096, 'twin': t, 'pub_bytes': pb, 'strays': False, 'second': True, 'push': True}
+          for pb in (False, 'bytearray') for n in ((0, 1, 2) if tier == 'quick' else (0, 1, 2, 3, 4)) for cb in (None, 'record') for t in twins]
     out.append(Part('reconnect', sc, run_one, {'*': None}, what='a second connect() on the same object under every outcome of the first', bound='keys <= %d, all decision sequences of both' % (2 if tier == 'quick' else 4)))
     return out
